@@ -31,19 +31,22 @@ A model/implementation difference is *not* recorded as a T2 mismatch only when
 the implementation agrees exactly with the legacy model on that input and the
 input belongs to one of these families; anything else is a mismatch.
 
-Mutants this check was built against (all caught, see the final report):
-  mapping.py  escape_file_id: swap order of the replace calls (" " before "_")
-  mapping.py  unescape_file_id: "_c" -> b"\\x0b"; drop the `i += 1` skip
-  mapping.py  generate_file_id: drop the ROOT_ID special case
-  mapping.py  revision_id_foreign_to_bzr: drop the ZERO_SHA case; registry splits on last ':'
-  refs.py     branch_name_to_ref: `startswith("refs/")` -> `startswith("refs")`;
-              ref_to_branch_name: HEAD -> "HEAD"
-  urls.py     escape(branch, safe="") -> default safe ("/" kept); ref==HEAD test dropped
-  lib.rs      (after fix) read "ref" but do not percent-decode
-  branch.py   set_parent: `if branch` / `elif ref` swapped; merge ref written for the remote name
-Harmless rewrites that stay clean: unescape_file_id rewritten with bytes.replace
-via a sentinel-free scanner; KNOWN_GIT_SCHEMES reordered; branch_name_to_ref
-with the two `if`s merged.
+Mutants this check was built against (applied to the tree with the proposed
+fixes, all caught with a concrete input unless noted):
+  mapping.py  escape_file_id: ' ' replaced before '_'; unescape_file_id: "_c" -> \\x0b;
+              generate_file_id: ROOT_ID case dropped (caught by T2 only: the round trip survives);
+              revision_id_foreign_to_bzr: ZERO_SHA case dropped; registry: split -> rsplit;
+              parse_file_id: off-by-one prefix strip; decode_git_path: errors="replace"
+  refs.py     branch_name_to_ref: startswith("refs"); ref_to_branch_name: HEAD -> "HEAD";
+              ref_to_tag_name strips one byte too many
+  urls.py     escape(branch) with the default safe set; quote_from_bytes(ref) keeping '/';
+              ref kept after it was converted to a branch name
+  lib.rs      "ref" read but not percent-decoded; "branch" not unescaped
+  branch.py   set_parent writes the merge ref under the remote's name; no-branch case leaves the old
+              merge entry; get_parent default ref refs/heads/master when there is no merge entry
+              (caught by the getter-only stream, T2)
+Harmless rewrites that stay clean: KNOWN_GIT_SCHEMES reordered; branch_name_to_ref
+restructured; escape_file_id as a single pass over a table.
 """
 import itertools
 import os
